@@ -431,6 +431,11 @@ class J1939_22:
                             elif self._minimum_tp_rts_cts_dt_interval != None:
                                 buf['deadline'] = time.time() + self._minimum_tp_rts_cts_dt_interval
                                 break
+                        else:
+                            # nothing (more) to send in this window, e.g. a CTS received
+                            # after the last segment: wait for the next CTS
+                            buf['state'] = self.SendBufferState.WAITING_CTS
+                            buf['deadline'] = time.time() + self.Timeout.T3
 
                         # recalc next wakeup
                         if next_wakeup > buf['deadline']:
